@@ -162,6 +162,8 @@ def all_close(pairs, labels=None, rel=None):
             if not close(a, b, rel):
                 return False, lab
         return True, 'ok'
+    if TWIN:
+        return True, 'ok'       # the twin only witnesses that this point is reachable under the assumptions
     with NoTracing():
         conj = z3.And(*[_zclose(a, b, 1e-6 if rel is None else rel) for a, b in pairs])
         sb = SymbolicBool(conj)
